@@ -243,7 +243,8 @@ class ExprMixin:
                     return [(st, a & bb)]
                 if isinstance(op, ast.BitXor):
                     return [(st, (a - bb) | (bb - a))]
-        if a.s == ANY or b.s == ANY or isinstance(a.s, Opaque) or isinstance(b.s, Opaque) or a.s == FUNC or b.s == FUNC:
+        if a.s == ANY or b.s == ANY or isinstance(a.s, Opaque) or isinstance(b.s, Opaque) or a.s == FUNC or b.s == FUNC \
+                or a.s == GLOB or b.s == GLOB:
             # arithmetic on opaque values (floats, paths): unconstrained result, may raise TypeError
             return [(st, ANY.fresh("binop"))]
         raise EngineError("unsupported operator %s on %s, %s (L%d)" % (type(op).__name__, a.s, b.s, node.lineno))
